@@ -69,6 +69,10 @@ class C13(Check):
                 cfg["automatic"] = False
             if cfg["lmin"] >= 2:
                 cfg["version"] = 0
+            if r.random() < 0.25:      # other local grid families that run in this strategy here
+                cfg["grid"] = r.choice(ES.LOCAL_GRIDS[1:])
+                cfg["boundary"] = True
+                cfg["single_dim"] = False
         else:
             cfg = ES.gen_cell_cfg(r, tier)
             cfg["max_leaves"] = 10 ** 6
